@@ -9,10 +9,14 @@ TRUSTED = [
     'Print Assumptions re-run and parsed on each check',
     'extraction: ExtrOcamlBasic only; ocaml/driver_qconc.ml',
     'tie A: tools/leaves/queue.py (read order of emptyQueue, doCanProcess) and tools/leaves/queueconc.py (shape of ~DisableQueueNotify)',
+    'tie B (HeterEventQueue): the same harness built with -DVH_HETER=1, programs restricted to the calls HeterEventQueue has',
     'tie B: harness/qconc.cpp + harness/vsched.h (cooperative scheduler: injected Mutex/Atomic/ConditionVariable; one runnable thread; schedule replay); every visible action compared',
     'assumed: sequential consistency over the visible actions; the injected condition variable has the standard semantics (atomic release-and-park, notify_one wakes one parked thread, no spurious wake-ups modelled); time passes only when no thread can run',
     'modelled not verified: the transcription coq/QConc.code_of of each API call (tied by correspondence), listener bodies that do not touch the queue',
 ]
+
+
+HETER_OPS = ('enqueue', 'process', 'processone', 'processif', 'clear', 'emptyq', 'wait', 'waitfor')
 
 
 def corpus_cases():
@@ -27,15 +31,24 @@ def corpus_cases():
 
 def run(ctx, prop_files, flavours, n_quick, n_thorough, what, note=None):
     proof = vlib.coq_prove(ctx, prop_files, leaves=['queue', 'queueconc', 'locks'])
-    res = vlib.build_many(ctx, [dict(name='qconc', src='qconc.cpp', defs=[])])
+    res = vlib.build_many(ctx, [dict(name='qconc', src='qconc.cpp', defs=[]), dict(name='qconc_heter', src='qconc.cpp', defs=['VH_HETER=1'])])
     binary, err = res['qconc']
     if binary is None:
         raise RuntimeError('harness qconc.cpp does not compile against /repo: %s' % err[-1500:])
+    hbinary, herr = res['qconc_heter']
+    if hbinary is None:
+        raise RuntimeError('harness qconc.cpp (HeterEventQueue) does not compile against /repo: %s' % herr[-1500:])
     cases = corpus_cases()
     ncorpus = len(cases)
     for k in range(ctx.budget(n_quick, n_thorough)):
         cases.append(qc_domain.gen_case(ctx.rng.fork(), flavours[k % len(flavours)]))
     st, model, texts = qc_domain.correspond(ctx, binary, cases, what)
+    # HeterEventQueue has the same synchronisation skeleton (enqueue / process / processOne / processIf / clearEvents /
+    # emptyQueue / wait / waitFor): the same programs, the same schedules, the same model
+    hcases = [c for c in cases if all(cmd[0] in HETER_OPS for th in c['threads'] for cmd in th)]
+    hst, _, _ = qc_domain.correspond(ctx, hbinary, hcases, what.replace('EventQueue', 'HeterEventQueue'))
+    st['heter_compared'] = hst['compared']
+    st['heter_disagreements'] = hst['disagreements']
     if not proof['ok'] and not ctx.violations:
         ctx.violation('# no failing schedule found by %d replayed schedules\n# broken obligation(s):\n# %s\n' % (st['compared'], '\n# '.join(proof['errors'])),
                       'proof obligation no longer checks: ' + '; '.join(proof['errors'])[:400], no_input=True)
@@ -50,8 +63,8 @@ def run(ctx, prop_files, flavours, n_quick, n_thorough, what, note=None):
         'rule': 'thread programs (2-4 threads, 1-5 calls each, flavours %s) under random schedules with bursts (+%d corpus schedules); each replayed on the extracted Coq model '
                 'and on the real EventQueue under the cooperative scheduler; every visible action, result and consumed event compared; non-trivial = >= 8 visible actions; '
                 'monitors on the implementation trace: no event consumed twice, no lost wake-up (single-waiter programs)' % (list(flavours), ncorpus),
-        'schedules_replayed_on_impl': st['compared'], 'visible_actions_compared': st['actions'], 'disagreements': st['disagreements'],
-        'monitor_alarms': st['monitor_alarms'], 'schedules_ending_with_all_threads_blocked': st['deadlocks'],
+        'schedules_replayed_on_impl': st['compared'], 'visible_actions_compared': st['actions'], 'disagreements': st['disagreements'] + st['heter_disagreements'],
+        'monitor_alarms': st['monitor_alarms'], 'heter_schedules_replayed': st['heter_compared'], 'heter_disagreements': st['heter_disagreements'], 'schedules_ending_with_all_threads_blocked': st['deadlocks'],
         'header_sha': vlib.sha(os.path.join(vlib.REPO, 'include/eventpp/eventqueue.h')),
     })
     ctx.assumptions += [note or 'PARTIAL: see level_note; the invariant over all interleavings is checked by schedule replay, not proved']
